@@ -163,6 +163,14 @@ TWINS = [
     ('contains-recursion-tol', 'C19', 'geom3d.py', '            return [np.linalg.norm(np.cross(_ - self.pp, self.w)) < tol for _ in x.T]', '            return [self.contains(_) for _ in x.T]', 'R10r', 'Plucker.contains'),
     ('contains-columns-tol', 'C19', 'geom3d.py', '            return [np.linalg.norm(np.cross(_ - self.pp, self.w)) < tol for _ in x.T]', '            return [np.linalg.norm(np.cross(_ - self.pp, self.w)) < 50*_eps for _ in x.T]', 'R16', 'Plucker.contains'),
     ('contains-rows', 'C19', 'geom3d.py', '            return [np.linalg.norm(np.cross(_ - self.pp, self.w)) < tol for _ in x.T]', '            return [np.linalg.norm(np.cross(_ - self.pp, self.w)) < tol for _ in x]', 'R16', 'Plucker.contains'),
+    # ---- R19 writer/reader composition
+    ('rpy-zyx-yaw-index', 'C05', 'base/transforms3d.py', '            rpy[2] = math.atan2(R[1, 0], R[0, 0])  # Y', '            rpy[2] = math.atan2(R[0, 1], R[0, 0])  # Y', 'R19', 'tr2rpy'),
+    ('rpy-zyx-sing-sign', 'C05', 'base/transforms3d.py', '                rpy[2] = -math.atan2(R[0, 1], R[0, 2])  # R-Y', '                rpy[2] = math.atan2(R[0, 1], R[0, 2])  # R-Y', 'R19', 'tr2rpy'),
+    ('rpy-xyz-pitch-k1', 'C05', 'base/transforms3d.py', '                rpy[1] = -math.atan(R[0, 2] * math.sin(rpy[0]) / R[0, 1])', '                rpy[1] = math.atan(R[0, 2] * math.sin(rpy[0]) / R[0, 1])', 'R19', 'tr2rpy'),
+    ('rpy-yxz-roll-swap', 'C05', 'base/transforms3d.py', '            rpy[0] = math.atan2(R[1, 0], R[1, 1])', '            rpy[0] = math.atan2(R[1, 1], R[1, 0])', 'R19', 'tr2rpy'),
+    ('rpy-xyz-sing-asin', 'C05', 'base/transforms3d.py', '            rpy[1] = math.asin(R[0, 2])', '            rpy[1] = -math.asin(R[0, 2])', 'R19', 'tr2rpy'),
+    ('eul-psi-args', 'C05', 'base/transforms3d.py', '        cp = math.cos(eul[0])\n        eul[1] = math.atan2(cp * R[0, 2] + sp * R[1, 2], R[2, 2])\n        eul[2] = math.atan2(-sp * R[0, 0] + cp * R[1, 0], -sp * R[0, 1] + cp * R[1, 1])', '        cp = math.cos(eul[0])\n        eul[1] = math.atan2(cp * R[0, 2] + sp * R[1, 2], R[2, 2])\n        eul[2] = math.atan2(-sp * R[0, 0] + cp * R[1, 0], sp * R[0, 1] + cp * R[1, 1])', 'R19', 'tr2eul'),
+    ('eul-theta-neg', 'C05', 'base/transforms3d.py', '        cp = math.cos(eul[0])\n        eul[1] = math.atan2(cp * R[0, 2] + sp * R[1, 2], R[2, 2])', '        cp = math.cos(eul[0])\n        eul[1] = math.atan2(cp * R[0, 2] - sp * R[1, 2], R[2, 2])', 'R19', 'tr2eul'),
 ]
 
 
